@@ -118,6 +118,9 @@ def make_symbolic(self, decl, name):
         return Opaque(decl[1], kind="effect", spec=decl[2])
     if kind == "logger":
         return Opaque("logger", kind="logger")
+    if kind == "anylist":
+        from .values import AnyList
+        return AnyList(decl[1], decl[2])
     if kind == "callable":
         from .values import Opaque as _Op
         return _Op(decl[1], kind="callable", spec={"returns": decl[2], "raises": decl[3]})
@@ -245,6 +248,8 @@ def install_spec_builtins(ip):
         bs = byte_decomp(ip, ip.to_z3(n, "int"), w)
         return ip.wrap(z3.Concat(*[z3.Unit(b) for b in bs]) if w > 1 else z3.Unit(bs[0]), "bytes")
     B["be"] = Builtin("be", be)
+    B["nullcontext"] = ip.ext_modules["contextlib"].attrs["nullcontext"]
+    B["deque"] = ip.builtins["deque"]
 
     def be_at(ip, a, k):
         data, off, w = a
